@@ -128,6 +128,11 @@ func ConfigsPinned(t Truth, maxPieces int, pinned []bool) []Config {
 			continue
 		}
 		for _, cs := range CutSets(len(r)) {
+			// every other ring has at least one piece: larger cut sets can
+			// never fit the bound (same result, far fewer candidates)
+			if maxPieces > 0 && len(cs) > maxPieces-(len(rings)-1) {
+				continue
+			}
 			for _, d := range Directions(len(cs)) {
 				per[i] = append(per[i], ringCfg{cs, d})
 			}
@@ -259,9 +264,40 @@ type Options struct {
 	// RelationType is the value of the relation's type tag
 	// ("multipolygon" when empty).
 	RelationType string
+
+	// The fields below were added by the boundary audit; their zero values
+	// give exactly the data sets produced before.
+
+	// WaysDescending lists the way objects by descending piece number.
+	WaysDescending bool
+	// Mixed (only without Annotated): there is a node object for every vertex
+	// AND the way nodes at even positions of every way carry Lat/Lon and
+	// Version 1, so that one line string draws on both sources.
+	Mixed bool
+	// WideIDs spreads the way and node ids over the id classes: piece /
+	// vertex number k keeps its small id when k%3 == 0, gets 2^40 + the id of
+	// its predecessor when k%3 == 1 (equal to it in the low 40 bits, the
+	// width of the ref part of osm.FeatureID) and the negated id when
+	// k%3 == 2 (ids of objects not uploaded yet).
+	WideIDs bool
+	// Extras mixes members that are no ways into the member list: a node
+	// member with role "outer" whose ref is the id of the first way in front,
+	// a relation member with role "inner" in the middle, a node member with
+	// an empty role at the end. None of them is part of Built.OSM; their
+	// elements are in Built.ExtraNodes / ExtraRelations (for a datasource).
+	Extras bool
+	// RelationTags are put in front of the relation's type tag.
+	RelationTags osm.Tags
+	// MemberNodes (only with Annotated): the data set holds no way objects;
+	// every member carries the way's node list with Lat/Lon only (no ids, no
+	// versions), the form in which Overpass returns member geometry
+	// (osm.Member.Nodes).
+	MemberNodes bool
 }
 
-// Member is the ground truth about one member way, in member order.
+// Member is the ground truth about one member, in member order. For a member
+// that is no way (Options.Extras) WayID is 0, Ring is -1, Vertices is nil and
+// Winding is 0: such a member has no direction.
 type Member struct {
 	WayID osm.WayID
 	Ring  int    // ring number in Truth.Rings()
@@ -280,6 +316,20 @@ type Built struct {
 	OSM      *osm.OSM      // nodes (unless annotated), ways, the relation
 	Relation *osm.Relation // == OSM.Relations[0]
 	Members  []Member      // parallel to Relation.Members
+	// elements the extra members (Options.Extras) refer to; not part of OSM
+	ExtraNodes     osm.Nodes
+	ExtraRelations osm.Relations
+}
+
+// wide maps the small id of object number k to its id class (Options.WideIDs).
+func wide(id int64, k int) int64 {
+	switch k % 3 {
+	case 1:
+		return 1<<40 + id - 1
+	case 2:
+		return -id
+	}
+	return id
 }
 
 // Times used for the elements: ways and nodes exist one day before the
@@ -290,7 +340,8 @@ var (
 )
 
 // RelationID is the id of the generated relation; way ids are 101.. in global
-// piece order, node ids 1.. in ring/vertex order.
+// piece order, node ids 1.. in ring/vertex order (see Options.WideIDs for
+// the other id classes).
 const RelationID = 1
 
 // NodeID returns the id of vertex v of ring r.
@@ -328,6 +379,25 @@ func Build(t Truth, c Case, o Options) *Built {
 		typ = "multipolygon"
 	}
 
+	firstID := make([]int, len(rings)) // id of vertex 0 of every ring, as in Truth.NodeID
+	for r, next := 0, 1; r < len(rings); r++ {
+		firstID[r] = next
+		next += len(rings[r])
+	}
+	nodeID := func(r, v int) osm.NodeID {
+		id := osm.NodeID(firstID[r] + v)
+		if o.WideIDs {
+			id = osm.NodeID(wide(int64(id), int(id)-1))
+		}
+		return id
+	}
+	if o.Mixed && o.Annotated {
+		panic("polycut: Mixed needs node objects")
+	}
+	if o.MemberNodes && !o.Annotated {
+		panic("polycut: MemberNodes needs Annotated")
+	}
+
 	var pieces []Member
 	var ways osm.Ways
 	for r, rg := range rings {
@@ -361,14 +431,18 @@ func Build(t Truth, c Case, o Options) *Built {
 				role = "outer"
 			}
 			id := osm.WayID(101 + len(pieces))
-			way := &osm.Way{ID: id, Version: 1, Visible: true, Timestamp: ChildTime, ChangesetID: 7}
-			for _, v := range vs {
-				wn := osm.WayNode{ID: t.NodeID(r, v)}
-				if o.Annotated {
+			if o.WideIDs {
+				id = osm.WayID(wide(int64(id), len(pieces)))
+			}
+			way := &osm.Way{ID: id, Version: 1, Visible: true, Timestamp: ChildTime, ChangesetID: 7,
+				Nodes: make(osm.WayNodes, 0, len(vs))}
+			for at, v := range vs {
+				wn := osm.WayNode{ID: nodeID(r, v)}
+				if o.Annotated || (o.Mixed && at%2 == 0) {
 					wn.Version = 1
 					wn.ChangesetID = 7
-					wn.Lat = rg[v].Lat()
-					wn.Lon = rg[v].Lon()
+					wn.Lat = t.Lat(rg[v])
+					wn.Lon = t.Lon(rg[v])
 				}
 				way.Nodes = append(way.Nodes, wn)
 			}
@@ -382,11 +456,30 @@ func Build(t Truth, c Case, o Options) *Built {
 
 	rel := &osm.Relation{
 		ID: RelationID, Version: 1, Visible: true, Timestamp: RelationTime, ChangesetID: 8,
-		Tags: osm.Tags{{Key: "type", Value: typ}},
+		Tags: append(append(osm.Tags(nil), o.RelationTags...), osm.Tag{Key: "type", Value: typ}),
 	}
-	b := &Built{Truth: t, Relation: rel}
+	rel.Members = make(osm.Members, 0, len(pieces)+3)
+	b := &Built{Truth: t, Relation: rel, Members: make([]Member, 0, len(pieces)+3)}
+	extra := func(m osm.Member) {
+		rel.Members = append(rel.Members, m)
+		b.Members = append(b.Members, Member{Ring: -1, Role: m.Role})
+	}
+	if o.Extras {
+		first := int64(pieces[0].WayID)
+		b.ExtraNodes = osm.Nodes{
+			{ID: osm.NodeID(first), Version: 1, Visible: true, Timestamp: ChildTime, ChangesetID: 7, Lat: 1, Lon: 1},
+			{ID: 9001, Version: 1, Visible: true, Timestamp: ChildTime, ChangesetID: 7, Lat: 2, Lon: 2},
+		}
+		b.ExtraRelations = osm.Relations{
+			{ID: osm.RelationID(first + 1), Version: 1, Visible: true, Timestamp: ChildTime, ChangesetID: 7},
+		}
+		extra(osm.Member{Type: osm.TypeNode, Ref: first, Role: "outer"})
+	}
 	used := make([]bool, len(pieces))
-	for _, pi := range c.Order {
+	for i, pi := range c.Order {
+		if o.Extras && i == len(c.Order)/2 {
+			extra(osm.Member{Type: osm.TypeRelation, Ref: int64(b.ExtraRelations[0].ID), Role: "inner"})
+		}
 		if pi < 0 || pi >= len(pieces) || used[pi] {
 			panic("polycut: order is not a permutation")
 		}
@@ -395,14 +488,43 @@ func Build(t Truth, c Case, o Options) *Built {
 		rel.Members = append(rel.Members, osm.Member{Type: osm.TypeWay, Ref: int64(p.WayID), Role: p.Role})
 		b.Members = append(b.Members, p)
 	}
+	if o.Extras {
+		extra(osm.Member{Type: osm.TypeNode, Ref: 9001, Role: ""})
+	}
 
+	if o.MemberNodes {
+		byID := make(map[osm.WayID]*osm.Way, len(ways))
+		for _, w := range ways {
+			byID[w.ID] = w
+		}
+		for i := range rel.Members {
+			if rel.Members[i].Type != osm.TypeWay {
+				continue
+			}
+			for _, wn := range byID[osm.WayID(rel.Members[i].Ref)].Nodes {
+				rel.Members[i].Nodes = append(rel.Members[i].Nodes, osm.WayNode{Lat: wn.Lat, Lon: wn.Lon})
+			}
+		}
+		ways = nil
+	}
+	if o.WaysDescending {
+		ways = append(osm.Ways(nil), ways...)
+		for a, z := 0, len(ways)-1; a < z; a, z = a+1, z-1 {
+			ways[a], ways[z] = ways[z], ways[a]
+		}
+	}
 	data := &osm.OSM{Ways: ways, Relations: osm.Relations{rel}}
 	if !o.Annotated {
+		total := 0
+		for _, rg := range rings {
+			total += len(rg)
+		}
+		data.Nodes = make(osm.Nodes, 0, total)
 		for r, rg := range rings {
 			for v, p := range rg {
 				data.Nodes = append(data.Nodes, &osm.Node{
-					ID: t.NodeID(r, v), Version: 1, Visible: true, Timestamp: ChildTime,
-					ChangesetID: 7, Lat: p.Lat(), Lon: p.Lon(),
+					ID: nodeID(r, v), Version: 1, Visible: true, Timestamp: ChildTime,
+					ChangesetID: 7, Lat: t.Lat(p), Lon: t.Lon(p),
 				})
 			}
 		}
